@@ -290,6 +290,11 @@ def make_cases(pid, tier, seed):
                     # through every lowering path - must be remapped at encode time; the output must be the same
                     sh = "before" if (bi + pi) % 2 == 0 else "after"
                     cases.append(dict(cases[-1], id=cases[-1]["id"] + "-s" + sh[0], shift=sh))
+    cap = int(os.environ.get("VERIF_T_CAP", "40000"))
+    if len(cases) > cap:
+        # thorough tiers of the larger families: a seeded sample (stated in the evidence) keeps a run within hours
+        rnd = random.Random(3000 + seed)
+        cases = rnd.sample(cases, cap)
     return cases
 
 
@@ -391,7 +396,7 @@ def run_engine_t(pid, tier, seed, out, ev):
             "functions": ["src/ir/module/mod.rs: Module::parse, Module::encode (encode_internal, resolve_special_instrumentation, resolve_* / plan_resolution_* helpers) -- executed natively by tv/driver, their OUTPUT is validated",
                           "src/iterator/module_iterator.rs, src/iterator/component_iterator.rs, src/ir/function.rs: the injection API paths used by the plan"],
             "bounds": ["bodies: bounded-exhaustive family over {block, loop, if, else, br, br_if, br_table, obs, return, unreachable} with <= 2 (all) / 3 (all in thorough, seeded sample in quick) abstract items, nesting <= 3, plus the same bodies wrapped in loop{..; br_if 0}",
-                       "plans: every single probe (site x applicable mode); oracle stream: <= 10 symbolic values in {0,1} ({0..n} for br_table selectors); step bound K = min(2*|body|+4, 72) per program; <= 12 events; runs exceeding a bound are outside the claim"],
+                       "plans: every single probe (site x applicable mode), same-site pairs, C15 combinations, C21 cross-site pairs, shifted twins (an unused import in front deleted through the API) for every third case; at most 40000 cases per run (seeded sample beyond that); oracle stream: <= 10 symbolic values in {0,1} ({0..n} for br_table selectors); step bound K = min(2*|body|+4, 72) per program; <= 12 events; runs exceeding a bound are outside the claim"],
             "assumptions": ["engine T validates the OUTPUT of the real lowering (translation validation); the lowering pass itself is not symbolically executed (CBMC cannot, DESIGN.md section 1)",
                             "trusted: wasmparser decode + Validator, the CFG flattening and semantics in tv/machine.py (cross-checked on every run against the independent interpreter tv/interp.py on pinned schedules), z3"]}
     todo = {}      # key -> obligation args
